@@ -1,7 +1,7 @@
 #!/usr/bin/env python3
 """Writes the H05_History / H13_History entries of checks/C05.json and checks/C13.json (one entry per algorithm and shard)."""
 import json
-names=["epidemic","spray","binary_spray","dtlsr","prophet"]
+names=["epidemic","spray","binary_spray","dtlsr","prophet","sensor-mule"]
 PKG="github.com/dtn7/dtn7-go/pkg/routing"
 def H(name,a,d,alpha,sh,shs,tier,prefix=0,events=0):
     env={"algo":str(a),"depth":str(d),"alphabet":str(alpha),"shards":str(shs),"shard":str(sh)}
@@ -19,6 +19,8 @@ for a in range(5):
 for a in range(5):
     for sh in range(10): hs.append(H("H05_History",a,4,2,sh,10,"thorough"))
 hs.append(H("H05_History",0,2,1,0,1,"quick",prefix=3))
+for sh in range(2): hs.append(H("H05_History",5,3,1,sh,2,"quick"))
+for sh in range(10): hs.append(H("H05_History",5,4,2,sh,10,"thorough"))
 for sh in range(5): hs.append(H("H05_History",0,4,2,sh,5,"thorough",prefix=3))
 hs.append({"name":"H05_SameMs","pkg":PKG,"crc":"uf","expect_reach":["end"]})
 hs.append({"name":"H05_ConcurrentFailures","pkg":PKG,"crc":"real","expect_reach":["end"],"yield_on_store":True,"note":"two failure reports for one bundle interleaved at every store call"})
@@ -33,5 +35,6 @@ for a in range(5):
     for sh in range(5): hs.append(H("H13_History",a,4,2,sh,5,"thorough",prefix=2))
 for a in range(5):
     for sh in range(2): hs.append(H("H13_History",a,4,2,sh,2,"thorough",prefix=0))
+for sh in range(3): hs.append(H("H13_History",5,3,2,sh,3,"thorough",prefix=2,events=EV13))
 c['harnesses']=hs
 json.dump(c,open('/verif/checks/C13.json','w'),indent=1)
